@@ -145,9 +145,12 @@ def rand_params(r, n=None, star=False, types=True, defaults=True, trigger=False)
                     default = v
         out.append((nm, typ, doc, default))
     if star:
+        # variadic entries are not always called args / kwargs
+        va, kw = r.choice((("*args", "**kwargs"), ("*args", "**kwargs"), ("*paths", "**options"), ("*a", "**kw"),
+                           ("*items", "**extra_kwargs")))
         if r.random() < 0.5:
-            out.append(("*args", None, "positional extras", Ellipsis))
-        out.append(("**kwargs", "dict" if types else None, "keyword extras", Ellipsis))
+            out.append((va, None, "positional extras", Ellipsis))
+        out.append((kw, "dict" if types else None, "keyword extras", Ellipsis))
     return out
 
 
